@@ -325,17 +325,175 @@ class ExpandAugAssign(ast.NodeTransformer):
         return n
 
 
+class Canon(ast.NodeTransformer):
+    """spellings of one statement brought to one form (applied to both sides of every comparison):
+      L[len(L) - 1] -> L[-1];   del L[-1] / L.pop(-1) -> L.pop();   if A: (if B: S) -> if A and B: S;   if A: S elif B: S -> if A or B: S;
+      X + list(Y) -> X + Y;   for i, v in enumerate(S) with i unused -> for v in S"""
+
+    def visit_Subscript(self, n):
+        self.generic_visit(n)
+        sl = n.slice
+        if isinstance(sl, ast.BinOp) and isinstance(sl.op, ast.Sub) and isinstance(sl.right, ast.Constant) and isinstance(sl.right.value, int) \
+                and not isinstance(sl.right.value, bool) and sl.right.value >= 1 \
+                and isinstance(sl.left, ast.Call) and isinstance(sl.left.func, ast.Name) and sl.left.func.id == 'len' and len(sl.left.args) == 1 \
+                and ast.dump(sl.left.args[0]) == ast.dump(_as_load(n.value)):
+            n.slice = ast.UnaryOp(op=ast.USub(), operand=ast.Constant(value=sl.right.value))
+        elif isinstance(sl, ast.Constant) and isinstance(sl.value, int) and not isinstance(sl.value, bool) and sl.value < 0:
+            n.slice = ast.UnaryOp(op=ast.USub(), operand=ast.Constant(value=-sl.value))
+        return n
+
+    def visit_Delete(self, n):
+        self.generic_visit(n)
+        if len(n.targets) == 1 and isinstance(n.targets[0], ast.Subscript) and ast.unparse(n.targets[0].slice).replace(' ', '') == '-1':
+            return ast.copy_location(ast.Expr(value=ast.Call(func=ast.Attribute(value=_as_load(n.targets[0].value), attr='pop', ctx=ast.Load()), args=[], keywords=[])), n)
+        return n
+
+    def visit_Call(self, n):
+        self.generic_visit(n)
+        if isinstance(n.func, ast.Attribute) and n.func.attr == 'pop' and len(n.args) == 1 and not n.keywords and ast.unparse(n.args[0]).replace(' ', '') == '-1':
+            n.args = []
+        return n
+
+    def visit_BinOp(self, n):
+        self.generic_visit(n)
+        if isinstance(n.op, ast.Add):
+            for side in ('left', 'right'):
+                e = getattr(n, side)
+                if isinstance(e, ast.Call) and isinstance(e.func, ast.Name) and e.func.id == 'list' and len(e.args) == 1 and not e.keywords \
+                        and isinstance(e.args[0], (ast.Name, ast.Attribute, ast.Subscript)):
+                    setattr(n, side, e.args[0])
+        return n
+
+    def visit_For(self, n):
+        self.generic_visit(n)
+        if isinstance(n.iter, ast.Call) and isinstance(n.iter.func, ast.Name) and n.iter.func.id == 'enumerate' and len(n.iter.args) == 1 and not n.iter.keywords \
+                and isinstance(n.target, ast.Tuple) and len(n.target.elts) == 2 and isinstance(n.target.elts[0], ast.Name):
+            idx = n.target.elts[0].id
+            used = any(isinstance(x, ast.Name) and x.id == idx and isinstance(x.ctx, ast.Load) for st in n.body + n.orelse for x in ast.walk(st))
+            if not used:
+                n.target = n.target.elts[1]
+                n.iter = n.iter.args[0]
+        return n
+
+    def visit_If(self, n):
+        self.generic_visit(n)
+        changed = True
+        while changed:
+            changed = False
+            # if A: (if B: S)   ->   if A and B: S
+            if not n.orelse and len(n.body) == 1 and isinstance(n.body[0], ast.If) and not n.body[0].orelse:
+                n = ast.copy_location(ast.If(test=_and(n.test, n.body[0].test), body=n.body[0].body, orelse=[]), n)
+                changed = True
+            # if A: S elif B: S [else: R]   ->   if A or B: S [else: R]
+            if len(n.orelse) == 1 and isinstance(n.orelse[0], ast.If) and [ast.dump(x) for x in n.body] == [ast.dump(x) for x in n.orelse[0].body]:
+                n = ast.copy_location(ast.If(test=_or(n.test, n.orelse[0].test), body=n.body, orelse=n.orelse[0].orelse), n)
+                changed = True
+        return n
+
+
+def split_pops(fn):
+    """`v = L.pop()` -> `v = L[-1]; L.pop()`, and a pop() statement directly followed by bindings `name = <subscripts of other names>` is moved
+    behind them (the bindings read neither L nor anything the pop changes -- distinct local lists are taken not to alias)"""
+    for node in ast.walk(fn):
+        for field in ('body', 'orelse', 'finalbody'):
+            b = getattr(node, field, None)
+            if not (isinstance(b, list) and b and isinstance(b[0], ast.stmt)):
+                continue
+            out = []
+            for st in b:
+                if isinstance(st, ast.Assign) and len(st.targets) == 1 and isinstance(st.targets[0], ast.Name) and isinstance(st.value, ast.Call) \
+                        and isinstance(st.value.func, ast.Attribute) and st.value.func.attr == 'pop' and not st.value.args and not st.value.keywords \
+                        and isinstance(st.value.func.value, (ast.Name, ast.Attribute)):
+                    L = st.value.func.value
+                    top = ast.Subscript(value=copy.deepcopy(L), slice=ast.UnaryOp(op=ast.USub(), operand=ast.Constant(value=1)), ctx=ast.Load())
+                    out.append(ast.copy_location(ast.Assign(targets=st.targets, value=top), st))
+                    out.append(ast.copy_location(ast.Expr(value=st.value), st))
+                else:
+                    out.append(st)
+            # bubble pop() statements behind independent bindings
+            moved = True
+            while moved:
+                moved = False
+                for k in range(len(out) - 1):
+                    a, c = out[k], out[k + 1]
+                    if isinstance(a, ast.Expr) and isinstance(a.value, ast.Call) and isinstance(a.value.func, ast.Attribute) and a.value.func.attr == 'pop' \
+                            and not a.value.args and isinstance(c, ast.Assign) and len(c.targets) == 1 and isinstance(c.targets[0], ast.Name) \
+                            and not any(isinstance(x, ast.Call) for x in ast.walk(c.value)):
+                        base = ast.dump(_as_load(a.value.func.value))
+                        reads = {ast.dump(_as_load(x)) for x in ast.walk(c.value) if isinstance(x, (ast.Name, ast.Attribute))}
+                        if base not in reads and c.targets[0].id not in {x.id for x in ast.walk(a) if isinstance(x, ast.Name)}:
+                            out[k], out[k + 1] = c, a
+                            moved = True
+            setattr(node, field, out)
+    return fn
+
+
+def _as_load(e):
+    e = copy.deepcopy(e)
+    for x in ast.walk(e):
+        if hasattr(x, 'ctx'):
+            x.ctx = ast.Load()
+    return e
+
+
+def _and(a, b):
+    vals = (a.values if isinstance(a, ast.BoolOp) and isinstance(a.op, ast.And) else [a]) + (b.values if isinstance(b, ast.BoolOp) and isinstance(b.op, ast.And) else [b])
+    return ast.BoolOp(op=ast.And(), values=list(vals))
+
+
+def _or(a, b):
+    vals = (a.values if isinstance(a, ast.BoolOp) and isinstance(a.op, ast.Or) else [a]) + (b.values if isinstance(b, ast.BoolOp) and isinstance(b.op, ast.Or) else [b])
+    return ast.BoolOp(op=ast.Or(), values=list(vals))
+
+
+class OrientCompare(ast.NodeTransformer):
+    """a > b -> b < a;  a >= b -> b <= a;  a <= x < b -> a <= x and x < b;  == / != with the operands in a fixed order"""
+    SWAP = {ast.Gt: ast.Lt, ast.GtE: ast.LtE}
+
+    def visit_Compare(self, n):
+        self.generic_visit(n)
+        parts = []
+        left = n.left
+        for op, right in zip(n.ops, n.comparators):
+            l, r, o = left, right, op
+            if type(o) in self.SWAP:
+                l, r, o = r, l, self.SWAP[type(o)]()
+            elif isinstance(o, (ast.Eq, ast.NotEq)) and ast.dump(l) > ast.dump(r):
+                l, r = r, l
+            parts.append(ast.Compare(left=copy.deepcopy(l), ops=[o], comparators=[copy.deepcopy(r)]))
+            left = right
+        if len(parts) == 1:
+            return ast.copy_location(parts[0], n)
+        return ast.copy_location(ast.BoolOp(op=ast.And(), values=parts), n)
+
+    def visit_BoolOp(self, n):
+        self.generic_visit(n)
+        vals = []
+        for v in n.values:
+            if isinstance(v, ast.BoolOp) and type(v.op) is type(n.op):
+                vals.extend(v.values)
+            else:
+                vals.append(v)
+        n.values = vals
+        return n
+
+
 def normal_form(fn, dual=False, drop_self_attrs=(), abstract_slot=False, sort_init=False, keep=()):
     fn = copy.deepcopy(fn)
     fn.name = 'F'
     fn.decorator_list = []
     fn = strip_noise(fn)
     fn = ExpandAugAssign().visit(fn)
+    fn = Canon().visit(fn)
+    fn = split_pops(fn)
+    ast.fix_missing_locations(fn)
     fn = dce(fn, drop_self_attrs)
     slots = []
     if dual:
         typer = ValueTyper(fn)
         fn = Dual(typer).visit(fn)
+    fn = OrientCompare().visit(fn)
+    ast.fix_missing_locations(fn)
     if abstract_slot:
         a = AbstractSlot()
         fn = a.visit(fn)
